@@ -64,6 +64,16 @@ func segs(v pred.Val) ([]string, bool) {
 		if x.V.Kind() == constant.String {
 			return []string{constant.StringVal(x.V)}, true
 		}
+	case *pred.SliceV:
+		out := ""
+		for _, c := range x.Elems {
+			k, ok := intOf(c.V)
+			if !ok {
+				return []string{"<" + x.String() + ">"}, true
+			}
+			out += string(rune(k))
+		}
+		return []string{out}, true
 	case pred.Term:
 		switch {
 		case x.Fn == "builtin.append" && len(x.Args) == 2:
@@ -73,7 +83,7 @@ func segs(v pred.Val) ([]string, bool) {
 		case x.Fn == "strconv.AppendUint" && len(x.Args) == 3 && x.Args[2].String() == "10":
 			a, ok := segs(x.Args[0])
 			return append(a, "<uint "+x.Args[1].String()+">"), ok
-		case x.Fn == "slice" && len(x.Args) == 1:
+		case (x.Fn == "slice" || x.Fn == "slice[:0]") && len(x.Args) == 1:
 			// make([]byte, 0, n) lowers to a slice of a fresh local array: an empty base
 			if p, ok := x.Args[0].(pred.Ptr); ok && p.Cell != nil && strings.HasPrefix(p.Cell.Name, "makeslice") {
 				return nil, true
